@@ -171,6 +171,11 @@ def enumerate_case(case, mode, errnos, rep, tier, rng):
             else:
                 inj = "%s:signal=SIGKILL:when=%d" % (c.name, c.nth)
             r = sb.run(case.args, inject=inj)
+            if r.get("timeout"):
+                # once more from the same state: a command that twice does not finish within a minute hangs
+                sb.restore(S0)
+                r = sb.run(case.args, inject=inj)
+                rep.count("timeout-retried:%s" % ("again" if r.get("timeout") else "finished"))
             T = canon_obj(sb, oroot)
             cls = "old" if T == T_old else ("new" if T == T_new else "other")
             label = step_label(sb, c, oroot, v)
@@ -182,7 +187,8 @@ def enumerate_case(case, mode, errnos, rep, tier, rng):
             obs = dict(call="%s#%d %s %s" % (c.name, c.nth, c.kind, sb.rel(c.paths[-1]) if c.paths else ""), label=label, inject=inj,
                        upgrade=(case.kind == "upgrade"),
                        rc=r["rc"], err=r["err"][-300:], cls=cls, kind=case.kind, T=T, T_old=T_old, T_new=T_new, oroot=oroot, v=v,
-                       other_ok=(canon_obj(sb, object_root(sb, "other") or "") == other_new), staged_dir=staged_dir, calls=r["calls"])
+                       other_ok=(canon_obj(sb, object_root(sb, "other") or "") == other_new), staged_dir=staged_dir, calls=r["calls"],
+                       hung=bool(r.get("timeout")))
             rep.count("fault:%s:%s:%s:%s" % (mode, case.kind, label, cls))
             rep.classes.add("%s|%s|%s|%s|rc%d" % (mode, case.kind, label, cls, min(r["rc"], 3) if r["rc"] >= 0 else -1))
             yield c, obs
@@ -193,6 +199,8 @@ def judge_fault(sb, case, obs, mode):
     """C04 oracle for one injected error / stop request; returns failures"""
     fails = []
     what = "%s of a %s commit, `%s` at %s" % ({"err": "single failure", "stop": "stop request"}[mode], case.kind, obs["inject"], obs["call"])
+    if obs.get("hung"):
+        fails.append("%s: the command did not finish within a minute, twice" % what)
     if obs["cls"] == "other":
         diff = sorted(set(obs["T"].items()) ^ set(obs["T_old"].items()))[:4]
         fails.append("%s: the object is neither the old state nor the complete new version (rc=%d): %s" % (what, obs["rc"], diff))
